@@ -89,6 +89,10 @@ type prog struct {
 	// message, to pass the payload on), "clearns", "dropattrs", "scribble"
 	// (overwrites every attribute value)
 	mutate string
+	// the handler also writes a token that the XML encoder refuses (a comment
+	// containing "-->", a second XML declaration, an unbalanced directive) and
+	// ignores the error: nothing of it reaches the wire and nothing else changes
+	rejected string
 }
 
 type elem struct {
@@ -335,6 +339,9 @@ func genCase(t *rapid.T) tcase {
 		if rapid.IntRange(0, 7).Draw(t, "ret") == 0 {
 			e.prog.ret = rapid.SampledFrom([]string{"plain", "stream", "wrapeof", "eof", "wrapunexpected"}).Draw(t, "retkind")
 		}
+		if !tc.midWriter && rapid.IntRange(0, 5).Draw(t, "rejectedToken") == 0 {
+			e.prog.rejected = rapid.SampledFrom([]string{"comment", "procinst", "directive"}).Draw(t, "rejected")
+		}
 		if !tc.useMux && rapid.IntRange(0, 4).Draw(t, "mutates") == 0 {
 			e.prog.mutate = rapid.SampledFrom([]string{"rename", "clearns", "dropattrs", "scribble"}).Draw(t, "mutate")
 		}
@@ -367,7 +374,7 @@ func (tc tcase) String() string {
 		fmt.Fprintf(&sb, " registered=%v", ks)
 	}
 	for i, e := range tc.elems {
-		fmt.Fprintf(&sb, "\n  in[%d] %s\n     handler: read=%s/%d ret=%q changes-the-start-element-in-place=%q writes:", i, e.node.Bytes(tc.ns()), e.prog.read, e.prog.k, e.prog.ret, e.prog.mutate)
+		fmt.Fprintf(&sb, "\n  in[%d] %s\n     handler: read=%s/%d ret=%q changes-the-start-element-in-place=%q also-writes-a-token-the-encoder-refuses=%q writes:", i, e.node.Bytes(tc.ns()), e.prog.read, e.prog.k, e.prog.ret, e.prog.mutate, e.prog.rejected)
 		for _, w := range e.prog.writes {
 			fmt.Fprintf(&sb, " [%s%s %s]", w.kind, map[string]string{"": "", "encode": " via Encode(value)", "encodeelement": " via EncodeElement(value, start)"}[w.via], w.node.Bytes(tc.ns()))
 		}
@@ -408,6 +415,14 @@ func (r *runner) run(p prog, t xmlstream.TokenReadEncoder) error {
 				return err
 			}
 		}
+	}
+	switch p.rejected {
+	case "comment":
+		_ = t.EncodeToken(xml.Comment("-->"))
+	case "procinst":
+		_ = t.EncodeToken(xml.ProcInst{Target: "xml", Inst: []byte(`version="1.0"`)})
+	case "directive":
+		_ = t.EncodeToken(xml.Directive("<"))
 	}
 	if len(p.writes) > 0 && r.aboutToWrite != nil {
 		r.aboutToWrite()
@@ -746,8 +761,25 @@ func check(t interface {
 		close(mdone)
 	}
 	var serveErr error
-	if p := ev.Guard(func() { serveErr = s.Serve(h) }); p != "" {
-		fail("Serve panicked: %s", p)
+	served := make(chan string, 1)
+	go func() { served <- ev.Guard(func() { serveErr = s.Serve(h) }) }()
+	select {
+	case p := <-served:
+		if p != "" {
+			fail("Serve panicked: %s", p)
+		}
+	case <-time.After(10 * time.Second):
+		// all the input (ending in EOF) was available from the start
+		if b := wire.BlockedMatching("(*Session).Serve("); len(b) > 0 {
+			time.Sleep(300 * time.Millisecond)
+			if b2 := wire.BlockedMatching("(*Session).Serve("); len(b2) > 0 {
+				conn.Close()
+				fail("Serve has not returned 10 s after the peer's input (ending in end of file) was complete: it is parked inside the library\noutput so far: %q\n%s", conn.Output(), strings.Join(b2, "\n\n"))
+			}
+		}
+		conn.Close()
+		ev.Class("inconclusive-timeout")
+		return
 	}
 	select {
 	case <-mdone:
@@ -867,6 +899,9 @@ func classify(tc tcase) (bool, []string) {
 			classes = append(classes, "iq-"+e.typ)
 			if e.prog.mutate != "" {
 				classes = append(classes, "handler-changes-start-element-in-place-"+e.prog.mutate)
+			}
+			if e.prog.rejected != "" {
+				classes = append(classes, "handler-writes-a-refused-token")
 			}
 			needs := e.typ == "get" || e.typ == "set"
 			if needs && len(e.prog.writes) > 0 && (!tc.useMux || tc.reg[key(e.typ, e.payload)]) {
